@@ -439,7 +439,7 @@ def side(ctx, proof):
     deep = 1 if proof["build_ok"] else 5
     fz, cov1 = server_fuzz(ctx, (1500 if ctx.tier == "quick" else 200000) * deep, stalled_upload=(deep > 1 or ctx.tier != "quick"))
     cov.update(cov1)
-    ff, cov2 = fault_scenarios(ctx, (12 if ctx.tier == "quick" else 300) * deep)
+    ff, cov2 = T.stable(lambda: fault_scenarios(ctx, (12 if ctx.tier == "quick" else 300) * deep))
     cov.update(cov2)
     rf, cov3 = race_family(ctx, (1 if ctx.tier == "quick" else 12) * deep)
     cov.update(cov3)
